@@ -14,7 +14,7 @@ from loki.ir import (
 )
 from loki.logging import info
 from loki.subroutine import Subroutine
-from loki.tools import as_tuple, OrderedSet
+from loki.tools import as_tuple, CaseInsensitiveDict, OrderedSet
 from loki.types import BasicType
 
 
@@ -144,8 +144,13 @@ def outline_region(region, name, imports, intent_map=None):
         v.parents[0] if v.parent else v for v in region_routine_variables
     )
 
+    # Declare every variable once, however its name is spelled in the region
+    region_routine_variables = tuple(CaseInsensitiveDict(
+        (v.name, v) for v in reversed(region_routine_variables)
+    ).values())
+
     # Build the call signature
-    region_routine_var_map = {v.name: v for v in region_routine_variables}
+    region_routine_var_map = CaseInsensitiveDict((v.name, v) for v in region_routine_variables)
     region_routine_arguments = []
     for intent, args in zip(('in', 'inout', 'out'), (region_in_args, region_inout_args, region_out_args)):
         for arg in args:
@@ -173,7 +178,9 @@ def outline_region(region, name, imports, intent_map=None):
     region_routine.rescope_symbols()
 
     # Create the call according to the wrapped code region
-    call_arg_map = {v.name: v for v in region_in_args + region_inout_args + region_out_args}
+    call_arg_map = CaseInsensitiveDict(
+        (v.name, v) for v in region_in_args + region_inout_args + region_out_args
+    )
     call_arguments = tuple(call_arg_map[a.name] for a in region_routine_arguments)
     call = CallStatement(name=Variable(name=name), arguments=call_arguments, kwarguments=())
 
